@@ -65,7 +65,7 @@ C12(e) ==
 C13(e) ==
      Clause(IF e.op = "restart" THEN "C13:reopened_counter_is_recomputed_total"
                                 ELSE "C13:counter_equals_recorded_total",
-            e.st.gcsize = GcTotal(e.st))
+            prev.gcsize = GcTotal(prev) => e.st.gcsize = GcTotal(e.st))      \* (relative: the step that breaks it)
   \o (IF e.op = "gc" /\ e.done /\ ~e.err
       THEN Clause("C13:quiesced_total_within_capacity", GcTotal(e.st) <= e.cap)
       ELSE <<>>)
